@@ -743,7 +743,25 @@ impl G {
             }
         }
         let w = m.word();
-        for v in if m == Mode::M64 { vec![1u64, 2, 0x7f, 0x80, 0xff, 0x100, 0x7ff8, 0x8000, 0xfff8] } else { vec![] } {
+        // round 7: count-register branches in every flavour and both modes (jrcxz / jecxz with 0x67 in long mode, jecxz / jcxz
+        // with 0x67 in 32-bit mode), loop*, and ret / ret imm16 in both modes, as priority forms
+        for rel in [0x10i64, -0x20] {
+            let t2 = (CODE_AT as i64 + 2 + rel) as u64;
+            let t3 = (CODE_AT as i64 + 3 + rel) as u64;
+            self.add("loop", if w == 64 { "jrcxz" } else { "jecxz" }, w, format!("(IJcxz {} {})", w, t2), format!("j{}cxz 0x{:x}", if w == 64 { "r" } else { "e" }, t2), vec![],
+                Enc { opc: &[0xE3], imm: imm_bytes(rel as u64, 1), ..none_enc(m) }, t2 as i64);
+            let (csz, mn) = if w == 64 { (32, "jecxz") } else { (16, "jcxz") };
+            self.add("loop", mn, w, format!("(IJcxz {} {})", csz, t3), format!("{} 0x{:x}", mn, t3), vec![],
+                Enc { pre: &[0x67], opc: &[0xE3], imm: imm_bytes(rel as u64, 1), ..none_enc(m) }, t3 as i64);
+            for (k, mn, opc) in [(0, "loop", 0xE2u8), (1, "loope", 0xE1), (2, "loopne", 0xE0)] {
+                self.add("loop", mn, w, format!("(ILoop {} {})", k, t2), format!("{} 0x{:x}", mn, t2), vec![], Enc { opc: &[opc], imm: imm_bytes(rel as u64, 1), ..none_enc(m) }, t2 as i64);
+            }
+        }
+        self.add("ret", "ret", w, "IRet0".into(), "ret".into(), vec![], Enc { opc: &[0xC3], ..none_enc(m) }, 0);
+        for v in [8u64, 0x10, 0x7ff8] {
+            self.add("ret", "ret", w, format!("(IRet {})", v), format!("ret 0x{:x}", v), vec![], Enc { opc: &[0xC2], imm: imm_bytes(v, 2), ..none_enc(m) }, v as i64);
+        }
+        for v in if m == Mode::M64 { vec![1u64, 2, 0x7f, 0x80, 0xff, 0x100, 0x8000, 0xfff8] } else { vec![] } {
             self.add("ret", "ret", w, format!("(IRet {})", v), format!("ret 0x{:x}", v), vec![], Enc { opc: &[0xC2], imm: imm_bytes(v, 2), ..none_enc(m) }, v as i64);
         }
         if m == Mode::M64 {
@@ -925,7 +943,7 @@ impl G {
             self.add("ctl-ind", "jmp", w, format!("(IJmpInd {})", mm.coq()), format!("jmp {}", mm.text(w)), vec![mm.clone()],
                 Enc { mode: m, opsz: w, def64: true, pre: &[], opc: &[0xFF], reg: Some(RegF::Digit(4)), rm: Some((&mm, false)), plusr: None, imm: vec![] }, 0);
         }
-        self.add("ret", "ret", w, "(IRet 0)".into(), "ret".into(), vec![], Enc { opc: &[0xC3], ..none_enc(m) }, 0);
+        self.add("ret", "ret", w, "IRet0".into(), "ret".into(), vec![], Enc { opc: &[0xC3], ..none_enc(m) }, 0);
         for v in [0u64, 8, 0x10, 0x1234] {
             self.add("ret", "ret", w, format!("(IRet {})", v), format!("ret 0x{:x}", v), vec![], Enc { opc: &[0xC2], imm: imm_bytes(v, 2), ..none_enc(m) }, v as i64);
         }
@@ -1249,7 +1267,10 @@ fn sample(f: &Form, r: &mut Rng, k: usize) -> Sample {
             if r.chance(1, 8) { s.g[7] = s.g[6] + (sz as u64 / 8) * r.below(3); } // overlapping
             if f.class == "string-rep" { s.g[1] = *r.pick(&[0u64, 1, 2, 3, 4, 5]); }
         }
-        "loop" => { let rnd = r.next(); s.g[1] = *r.pick(&[0u64, 1, 2, 0x1_0000_0000, 0x1_0000_0001, 0xffff_ffff_0000_0000, rnd]); }
+        // count register: the first two states of every encoding have (r/e)cx = 0 and = 1, the others come from the pool
+        // (incl. values that are zero only at a narrower count width)
+        "loop" => { let rnd = r.next(); let p = *r.pick(&[0u64, 1, 2, 0x1_0000, 0xffff_0000, 0x1_0000_0000, 0x1_0000_0001, 0xffff_ffff_0000_0000, rnd]);
+                    s.g[1] = match k { 0 => 0, 1 => 1, _ => p }; }
         "leave" => { s.g[5] = stack_region + 0x8000 + 0x1000 + r.below(0x100) * 8; }
         "bt-mem-reg" => {
             if let Some(Op::Reg(o)) = f.ops.get(1) {
@@ -1662,7 +1683,9 @@ fn main() {
                 || (f.class == "alu" && f.mnem == "test" && o0.map_or(false, |d| regop(d) || memok(d)) && src_regimm)
                 || ((f.class == "xchg" || f.class == "xadd") && o0.map_or(false, |d| regop(d) || memok(d)) && o1.map_or(false, |d| regop(d)))
                 || (f.class == "mul" && f.mnem == "imul" && (f.coq.starts_with("(IImul2") || f.coq.starts_with("(IImul3")) && o1.map_or(false, |d| regop(d) || memok(d)))
-                || ((f.class == "shift-imm" || f.class == "shift-cl") && ["shl", "shr", "sar"].contains(&f.mnem.as_str()) && o0.map_or(false, |d| regop(d) || memok(d)))
+                || ((f.class == "shift-imm" || f.class == "shift-cl") && ["shl", "shr", "sar", "rol", "ror"].contains(&f.mnem.as_str()) && o0.map_or(false, |d| regop(d) || memok(d)))
+                || f.coq.starts_with("(IJmpRel") || f.coq.starts_with("(IRet ") || f.coq == "IRet0" || f.coq.starts_with("(ILoop") || f.coq.starts_with("(IJcxz") || f.coq.starts_with("(IJcc")
+                || (f.coq.starts_with("(IJmpInd") && o0.map_or(false, |d| regop(d) || memok(d)))
                 || (f.class == "unary" && ["inc", "dec", "neg", "not"].contains(&f.mnem.as_str()) && o0.map_or(false, |d| regop(d) || memok(d)))
                 || (f.class == "setcc" && o0.map_or(false, |d| regop(d)))
                 || (f.class == "movx" && o1.map_or(false, |o| regop(o) || memok(o)))
@@ -1672,7 +1695,7 @@ fn main() {
             // ... of which also covered by a sim theorem (Props/C01.v); memory forms: under the no-wrap state condition
             let mem_dst = o0.map_or(false, |d| memok(d));
             let _ = mem_dst;
-            let excluded = (f.mnem == "xor" && f.ops.len() == 2 && f.ops[0] == f.ops[1]) || f.mnem == "setp" || f.mnem == "setnp";
+            let excluded = (f.mnem == "xor" && f.ops.len() == 2 && f.ops[0] == f.ops[1]) || f.mnem == "setp" || f.mnem == "setnp" || f.mnem == "jp" || f.mnem == "jnp";
             if mirrored && !excluded { bump("encodings:sim-theorem-and-tie", 1); }
         }
         let mname = if f.mode == Mode::M64 { "amd64" } else { "x86" };
